@@ -286,6 +286,10 @@ class KindAnalysis:
             same = {k for k in have if family(k) == fam}
             if same and want not in same:
                 return sorted(same)
+            # a value that is a LW quantity on one path and a RW quantity on another (the two
+            # arms of an if/else feeding one variable) is wrong on one of them
+            if fam == "side" and want in ("LW", "RW") and (same - {want, "UNI"}):
+                return sorted(same - {want})
             return None
 
         def report(rule, site, ok, loc, msg):
